@@ -4,8 +4,8 @@ from gen_util import *
 from srp_cases import *
 import pyref, pyhdr, struct, re
 
-MODULES = ["WowSrp.Props.C14", "WowSrp.Props.Source.Facade", "WowSrp.Props.Source.StripRule", "WowSrp.Props.Source.Glue.Vanilla", "WowSrp.Props.Source.Glue.Tbc", "WowSrp.Props.Source.Glue.Wrath", "WowSrp.Props.Source.Glue.Srp", "WowSrp.Props.Source.Structural.C14", "WowSrp.Props.Source.Shape.C14"]
-THEOREMS = ["C14_server_register", "C14_server_login", "C14_server_login_api", "C14_server_secret", "C14_interleaved", "C14_into_proof", "C14_into_proof_only_documented", "C14_with_specific_private_key", "C14_server_reconnect", "C14_client", "C14_client_verify", "C14_client_reconnect", "C14_client_zero_secret", "C14_client_announced", "C14_client_announced_zero", "C14_world_server", "C14_world_client", "C14_world_wrath_server", "C14_world_wrath_client", "C14_rc4_new", "C14_headers_fresh", "C14_headerKeyOk_vanilla", "C14_headerKeyOk_tbc", "C14_headers", "C14_headers_history", "C14_headers_chunks", "C14_headers_facade", "C14_wrath_client", "C14_wrath_server", "C14_wrath_server_enc", "C14_wrath_history", "C14_source_facade_delegates", "C14_headers_facade_io", "C14_translated_strip_rule", "C14_source_glue_vanilla", "C14_source_glue_tbc", "C14_source_glue_wrath", "C14_source_glue_srp", "C14_source_structural_impls", "C14_source_shapes"]
+MODULES = ["WowSrp.Props.C14", "WowSrp.Props.Source.Facade", "WowSrp.Props.Source.StripRule", "WowSrp.Props.Source.Glue.Vanilla", "WowSrp.Props.Source.Glue.Tbc", "WowSrp.Props.Source.Glue.Wrath", "WowSrp.Props.Source.Glue.Srp", "WowSrp.Props.Source.Structural.C14", "WowSrp.Props.Source.Shape.C14", "WowSrp.Props.Source.Interleave"]
+THEOREMS = ["C14_server_register", "C14_server_login", "C14_server_login_api", "C14_server_secret", "C14_interleaved", "C14_into_proof", "C14_into_proof_only_documented", "C14_with_specific_private_key", "C14_server_reconnect", "C14_client", "C14_client_verify", "C14_client_reconnect", "C14_client_zero_secret", "C14_client_announced", "C14_client_announced_zero", "C14_world_server", "C14_world_client", "C14_world_wrath_server", "C14_world_wrath_client", "C14_rc4_new", "C14_headers_fresh", "C14_headerKeyOk_vanilla", "C14_headerKeyOk_tbc", "C14_headers", "C14_headers_history", "C14_headers_chunks", "C14_headers_facade", "C14_wrath_client", "C14_wrath_server", "C14_wrath_server_enc", "C14_wrath_history", "C14_source_facade_delegates", "C14_headers_facade_io", "C14_translated_strip_rule", "C14_source_glue_vanilla", "C14_source_glue_tbc", "C14_source_glue_wrath", "C14_source_glue_srp", "C14_source_structural_impls", "C14_source_shapes", "C14_translated_interleaved"]
 RULE = ("every public call under catch_unwind with adversarial peer-controlled values: server: A in {1, 2, N-1, N+1, 2^256-1, many-zero-byte encodings, random} x verifiers "
         "{1, 2, N-1, random} x random M1, reconnect data/proofs, world-login proofs/seeds; client (built-in group): B = k*v mod N (drives S to 0), k*v +- 1, B >= N, "
         "1, N-1, special salts, random M2; random header garbage of random length on all decrypt / read entry points of the three expansions. The outcome must be "
